@@ -71,6 +71,28 @@ def yylmax_job(chk, rng, i):
             "features": ["workload:yylmax"]}
 
 
+def pushback_job(chk, rng, i):
+    """yyunput() of more text than the buffer can take: the documented fatal error must
+    come before anything is written outside the buffer."""
+    p = gen.default_profile()
+    p["nrules"] = (1, 3)
+    p["depth"] = 1
+    g, case = tokens.base_case(chk, rng, p)
+    n = rng.choice([16500, 20000, 33000])
+    case["rules"].insert(0, {"scs": None, "bol": False, "pat": ("chr", 112), "trail": None,
+                             "act": [("unput", bytes(rng.choice(b"ab") for _ in range(n)))]})
+    case["opts"]["ledger"] = True
+    case["driver"] = {"fini": []}
+    ctx = gen.ctx_of(case)
+    inputs = [{"sources": [g.make_input(case, ctx, maxlen=20) + b" p " + g.make_input(case, ctx, maxlen=20)],
+               "sched": [0]} for _ in range(2)]
+    fl = tokens.rotate(i, tokens.FLAV3)
+    cfg = {"flavour": fl, "flexargs": (), "opts": {}}
+    case["budget"] = {"events": 400}
+    return {"case": case, "configs": [cfg], "inputs": inputs, "skip_if": tokens.dangerous,
+            "features": ["workload:pushback_overflow"]}
+
+
 def memcheck_sample(chk, n):
     flex = chk.flex("san")
     for i in range(n):
@@ -138,11 +160,26 @@ def run(pid, tier):
         for p in res.problems:
             chk.violation("yylmax case %d cfg %s: %s: %s" % (i, stream.cfg_tag(p["cfg"]), p["kind"], p["what"]),
                           {"kind": p["kind"]}, stream.save_problem(p))
+    items = [(chk, 60000 + i, pushback_job) for i in range(3 if tier == "quick" else 30)]
+    for i, job, res in util.pmap(lib.worker, items):
+        if job is None:
+            continue
+        chk.count(res.runs)
+        chk.feat(res.features)
+        for k in job.get("features", []):
+            chk.feat1(k)
+        for ii in range(res.runs):
+            chk.nontriv("u%d/%d" % (i, ii))
+        for p in res.problems:
+            chk.violation("push-back case %d cfg %s: %s: %s" % (i, stream.cfg_tag(p["cfg"]), p["kind"],
+                                                               p["what"]),
+                          {"kind": p["kind"]}, stream.save_problem(p))
     memcheck_sample(chk, nm)
     for name, _ in MAKERS:
         chk.require("workload:" + name)
     chk.require("destroy_and_reuse", 50)
     chk.require("token_too_large", 1)
+    chk.require("workload:pushback_overflow", 2)
     chk.require("memcheck_clean", 2)
     return chk
 
